@@ -199,25 +199,32 @@ class Code310(Code38):
         """
         co_linetable = b""
 
+        # Each entry describes a *range* of bytecode: its length and the line
+        # increment that applies from the start of that range. So entry i
+        # needs the offset of entry i+1 (or the end of the code).
+        entries = list(self.co_linetable)
         prev_line_number = self.co_firstlineno
-        prev_offset = 0
-        offset_diff = 0
-
-        for offset, line_number in self.co_linetable:
+        for i, (offset, line_number) in enumerate(entries):
+            if i + 1 < len(entries):
+                end_offset = entries[i + 1][0]
+            else:
+                end_offset = max(len(self.co_code), offset)
+            offset_diff = end_offset - offset
+            if offset_diff == 0:
+                continue
             line_diff = line_number - prev_line_number
             prev_line_number = line_number
-            offset_diff = offset - prev_offset
-            prev_offset = offset
-            while offset_diff >= 256:
-                co_linetable += bytearray([255, 0])
-                offset_diff -= 255
-            co_linetable += bytearray([offset_diff, line_diff % 256])
-            while line_diff >= 127:
+            while line_diff > 127:
                 co_linetable += bytearray([0, 127])
                 line_diff -= 127
             while line_diff < -127:
-                co_linetable += bytearray([0, -127])
-                line_diff -= 127
+                co_linetable += bytearray([0, (-127) & 0xFF])
+                line_diff += 127
+            while offset_diff > 254:
+                co_linetable += bytearray([254, line_diff & 0xFF])
+                line_diff = 0
+                offset_diff -= 254
+            co_linetable += bytearray([offset_diff, line_diff & 0xFF])
 
         self.co_linetable = co_linetable
 
